@@ -283,9 +283,12 @@ def run_case(case: Any, pid: str) -> Verdict:
         if close is not None and close[0] == j:
             blind |= {close[1], close[1] + 1}
         for (je, ke) in errors:
-            # a raising primary before the fallback stream delivers drops the round (like a closed stream)
+            # a raising primary before the fallback stream delivers drops the round (like a closed stream); when it
+            # raises at the very tick of the first fallback sample, that sample is already buffered and the error
+            # path reads the one after it, so the term runs one tick ahead until the next round re-aligns it:
+            # still start-up (bounded: two ticks after the error), not judged
             if je == j and ke <= fb_from[j]:
-                blind |= {ke, ke + 1}
+                blind |= {ke, ke + 1, ke + 2}
     by_tick: dict[int, list[Any]] = {}
     for s in outputs:
         k = (s.timestamp - world.T0).total_seconds()
